@@ -19,7 +19,61 @@ PREFIX_PAIRS = [('a/', 'b/'), ('a/', 'b/'), ('a/', 'b/'), ('i/', 'w/'), ('c/', '
 
 def plan(ctx):
     n = ctx.n(7000, 120000)
-    return [('case', engine.stable_hash((ctx.seed, 'c14', i))) for i in range(n)]
+    return [('case', engine.stable_hash((ctx.seed, 'c14', i))) for i in range(n)] + \
+        [('combined', engine.stable_hash((ctx.seed, 'c14cc', i))) for i in range(ctx.n(800, 15000))]
+
+
+def run_combined(seed):
+    """Combined (merge) diffs: one file header per section and one hunk header per '@@@' line, also when a conflict
+    region starts on the first line of a hunk."""
+    from .. import corpus
+    rng = engine.item_rng(seed)
+    nsec = rng.choice([1, 1, 2, 3])
+    lines, nh, leads = [], [], []
+    for i in range(nsec):
+        conflict = rng.random() < 0.6
+        lead = rng.choice([0, 0, None]) if conflict else None
+        k = rng.choice([1, 2, 3])
+        ls, _m, _p = corpus.gen_combined(rng, conflict=conflict, nparents=2 if conflict else rng.choice([2, 3]), nhunks=k,
+                                         nconflicts=rng.choice([1, 2]), styles=('diff3', 'merge'), lead=lead)
+        ls = [l.replace(_p, 'cc%d/%s' % (i, _p)) if l.startswith(('diff --cc', '--- ', '+++ ')) else l for l in ls]
+        lines += ls
+        nh.append(k)
+        leads.append(lead)
+    opts = gen.tagged_styles()
+    opts['--paging'] = 'never'
+    opts['--hunk-header-style'] = gen.TAGS['hh'] + ' line-number'
+    cls = ['combined']
+    for name, p_ in (('--line-numbers', 0.3), ('--navigate', 0.2), ('--hyperlinks', 0.2)):
+        if rng.random() < p_:
+            opts[name] = True
+            cls.append(name.lstrip('-'))
+    if rng.random() < 0.3:
+        opts['--line-buffer-size'] = rng.choice([0, 1, 32])
+    res = runner.run_delta(gen.to_args(opts), ('\n'.join(lines) + '\n').encode())
+    c = crash_outcome(res, ID)
+    if c is not None:
+        return c
+    if res.rc != 0:
+        return inconclusive('exit %d: %s' % (res.rc, res.err[:120]))
+    infos = [i for i in rows.classify_all(res.out) if i.kind in ('file', 'hunk')]
+    got = []
+    for i in infos:
+        if i.kind == 'file':
+            got.append(['file', 0])
+        elif got:
+            got[-1][1] += 1
+        else:
+            got.append(['none', 1])
+    counters = {'file_headers': sum(1 for g in got if g[0] == 'file'), 'hunk_headers': sum(g[1] for g in got), 'combined_sections': nsec}
+    sets = {'section_kinds': ['combined' + ('-conflict-first' if 0 in leads else '')], 'option_classes': cls, 'format': ['combined']}
+    exp = [['file', k] for k in nh]
+    if got != exp:
+        key = 'combined:file-headers' if [g[0] for g in got] != [e[0] for e in exp] else 'combined:hunk-headers'
+        return violated('c14:' + key, 'a combined diff of %d section(s) with %s hunks is shown with other file / hunk header rows (conflict region '
+                        'first in the last hunk: %s)' % (nsec, nh, [l == 0 for l in leads]), exp, got, run=res, counters=counters, sets=sets)
+    return held(sig=('combined', tuple(nh), tuple(leads), tuple(sorted(cls))), nontrivial=True, counters=counters, sets=sets,
+                sample={'input_head': lines[:8], 'hunks_per_section': nh})
 
 
 def rand_path_shape(rng):
@@ -60,7 +114,7 @@ def make_section(rng, kind, idx, pa, pb):
         s.old = 's%d/' % idx + s.old
     s.new = s.old
     s.classes = {oc}
-    if kind in ('renamed', 'renamed_changed', 'copied', 'binary_noindex'):
+    if kind in ('renamed', 'renamed_changed', 'copied', 'binary_noindex', 'binary_renamed', 'binary_copied'):
         s.new, nc = rand_path_shape(rng)
         while nc == 'git-quoted' and kind == 'binary_noindex':
             s.new, nc = rand_path_shape(rng)
@@ -80,7 +134,7 @@ def make_section(rng, kind, idx, pa, pb):
     elif kind == 'deleted':
         s.hunks = [gen.Hunk(1, 0, [('-', gen.rand_text(rng, 30, tabs_ok=False)) for _ in range(rng.randint(1, 3))])]
     for h in s.hunks:
-        h.lines = [(kk, t if not (kk == '+' and t.startswith('++ ')) else 'pp' + t[2:]) for kk, t in h.lines if kk != '\\']
+        h.lines = [(kk, t) for kk, t in h.lines if kk != '\\']
         h.fragment = rng.choice(gen.FRAGMENTS + ['struct X {', 'a @@ b', '\tindented with tab', 'trailing space  '])
     s.pa, s.pb = pa, pb
     s.cc_word = rng.choice(['cc', 'combined'])
@@ -137,6 +191,11 @@ def section_lines(s, fmt):
         elif k == 'binary_noindex':
             # git diff --no-index dirA dirB: two different paths and no ---/+++ lines
             L += [idx + ' 100644', 'Binary files %s and %s differ' % (gq(pa, a, False), gq(pb, b, False))]
+        elif k in ('binary_renamed', 'binary_copied'):
+            # a binary file renamed / copied and changed
+            w = 'rename' if k == 'binary_renamed' else 'copy'
+            L += ['similarity index 90%', w + ' from ' + gq('', a, False), w + ' to ' + gq('', b, False), idx + ' 100644',
+                  'Binary files %s and %s differ' % (gq(pa, a, False), gq(pb, b, False))]
         elif k == 'binary_added':
             L += ['new file mode 100644', 'index 0000000..2222222', 'Binary files /dev/null and %s differ' % gq(pb, b, False)]
     for h in s.hunks:
@@ -169,9 +228,9 @@ def expected_header(s, fmt, labels, arrow):
         return lab(labels['added']) + s.new
     if k == 'deleted':
         return lab(labels['removed']) + s.old
-    if k in ('renamed', 'renamed_changed'):
+    if k in ('renamed', 'renamed_changed', 'binary_renamed'):
         return '%s%s %s %s' % (lab(labels['renamed']), s.old, arrow, s.new)
-    if k == 'copied':
+    if k in ('copied', 'binary_copied'):
         return '%s%s %s %s' % (lab(labels['copied']), s.old, arrow, s.new)
     if k == 'binary_noindex':
         return 'Binary files %s%s and %s%s differ' % (s.pa, s.old, s.pb, s.new)      # passed through, it names both files
@@ -184,15 +243,20 @@ def expected_header(s, fmt, labels, arrow):
 
 def run_item(item):
     _, seed = item
+    if item[0] == 'combined':
+        return run_combined(seed)
     rng = engine.item_rng(seed)
     fmt = 'plain' if rng.random() < 0.1 else 'git'
-    kinds_all = gen.SECTION_KINDS + ['submodule_log', 'binary_noindex', 'binary_cc']
+    kinds_all = gen.SECTION_KINDS + ['submodule_log', 'binary_noindex', 'binary_cc', 'binary_renamed', 'binary_copied']
     n = rng.choice([1, 2, 2, 3, 4])
     pa, pb = rng.choice(PREFIX_PAIRS)
     secs = []
     for i in range(n):
         kind = rng.choice(['modified'] * 4 + ['binary_bare']) if fmt == 'plain' else rng.choice(kinds_all)
         secs.append(make_section(rng, kind, i, pa, pb))
+        if fmt == 'plain' and i and kind == 'modified' and secs[i - 1].kind == 'modified' and rng.random() < 0.3:
+            # a patch series: the next section is about the same two files again
+            secs[i].old, secs[i].new = secs[i - 1].old, secs[i - 1].new
     opts = gen.tagged_styles()
     opts['--paging'] = 'never'
     cls = []
@@ -286,6 +350,8 @@ def run_item(item):
         if info.kind != 'file':
             return bad('header-missing:' + s.kind, 'expected the file header of section %d (%s), found a %s row' % (si, s.kind, info.kind), exp, info.text[:200])
         got = ''.join(c.ch for c in info.row.cells if gen.TAG_BY_RGB.get(c.fg) == 'file').strip()
+        if s.kind in ('binary_renamed', 'binary_copied'):
+            got = got.replace(' (binary file)', '')     # the note may or may not be shown with the two names
         if norm(got) != norm(exp):
             return bad('header-text:' + s.kind, 'file header of a %s section does not name the right file/event' % s.kind, exp, got)
         counters['file_headers'] += 1
